@@ -11,6 +11,7 @@ CHECKS = {
  "C14": ("model_checking", "TLC checks OutRingImpl (ring indices modulo the buffer size, the CR LF room test, the contiguous-chunk computation, send results all/partial/EWOULDBLOCK/EINTR/EPIPE) exhaustively for 'the socket stream is a prefix of the accepted stream, ring content = accepted minus sent, no CR without its LF'; TLC-enumerated message lengths around the real 4096-byte buffer x LF patterns x send-result plans x flush points (OutRingGen) run through the real add_message()/flush_message() with a scripted send(); the projection compares byte contents and TLC validates the accounting/ordering protocol of every trace against the abstract specification OutRing (tail-only loss, only when full or dead, write interest whenever unsent bytes remain).", NOTE + "; byte-content comparison (prefix matching of the captured socket stream against the generated messages) is done by the projection in checks/c14.py, which is trusted", TECH, "DESIGN.md §7 C14"),
  "C13": ("model_checking", "The reference telnet decoder (TelnetRef) is a fold over the byte stream; TLC checks exhaustively (all token streams up to 4 tokens x all cut positions) that feeding pieces equals feeding the whole and that no negotiation byte reaches a line. TLC-enumerated token streams x segmentations (strict class), malformed/oversized/8-bit robust-class streams, ASCII-port streams and bursts are delivered through a scripted recv() to the real get_user_data()/copy_chars()/get_user_command(); every trace is validated against the abstract specification Telnet: strict class - delivered commands equal the reference lines in order and nothing is lost; robust class - only bytes the reference met as data may appear, buffer indices stay inside the 2 KiB buffer; ASan/UBSan monitor every execution.", NOTE, TECH + "; sanitizer monitoring for the memory-safety clause", "DESIGN.md §7 C13"),
  "C09": ("model_checking", "TLC enumerates (BackendGen) short histories of external events - tick before any connection, connect, partial input, EOF / hang-up / reset, reconnect, console lines - with an uncaught error injected into each kind of task (command, process_input, input_to, heart_beat, call_out, reset, clean_up, connect, logon, net_dead, telnet callback) in network and console mode with a working, failing or silent master error_handler; every history runs through the real backend() under ASan/UBSan and every trace is validated by TLC against Backend (process alive at the end, every error reported before the next poll, only the failing object's heart beat switched off) and against CmdTurn (the other users keep being served).", NOTE, TECH + " with enumerated fault sequences; sanitizer monitoring", "DESIGN.md §7 C09"),
+ "C20": ("model_checking", "TLC runs the abstract specification Uids over a small universe (UidsGen) and checks that uids are never 0 and change only by creation or export_uid from a non-zero euid onto an euid-0 object, and that euids change only by an approved seteuid (or to 0); the same runs print load/clone/seteuid/export_uid histories under three master policies (approve all, refuse all, approve own uid; creators incl. the backbone). Every history is executed by scenario objects with different creators in the real driver and getuid()/geteuid() of every object after every step are validated by TLC against Uids.", NOTE, TECH, "DESIGN.md §7 C20"),
 }
 NA = {}
 
